@@ -1122,11 +1122,11 @@ def _build_subscript(
             parent,
             parse_strings=True,
             literal_strings=literal_strings,
-            in_subscript=True,
+            in_subscript=isinstance(node.slice, ast.Tuple),
             **kwargs,
         )
     else:
-        slice = _build(node.slice, parent, in_subscript=True, **kwargs)
+        slice = _build(node.slice, parent, in_subscript=isinstance(node.slice, ast.Tuple), **kwargs)
     return ExprSubscript(left, slice)
 
 
@@ -1137,7 +1137,7 @@ def _build_tuple(
     in_subscript: bool = False,
     **kwargs: Any,
 ) -> Expr:
-    return ExprTuple([_build(el, parent, **kwargs) for el in node.elts], implicit=in_subscript)
+    return ExprTuple([_build(el, parent, **kwargs) for el in node.elts], implicit=in_subscript and bool(node.elts))
 
 
 def _build_unaryop(node: ast.UnaryOp, parent: Module | Class, **kwargs: Any) -> Expr:
